@@ -711,3 +711,299 @@ Proof.
     + apply N.eqb_eq in He. exfalso. apply H1. rewrite He. apply nth_In. lia.
     + apply IH; auto; lia.
 Qed.
+
+(* ====================================================================================== *)
+(* the BTreeSet model: sorted duplicate-free lists                                          *)
+(* ====================================================================================== *)
+Section SortedSet.
+Variable X : Type.
+Variable cmp : X -> X -> comparison.
+Hypothesis cmp_eq : forall a b, cmp a b = Datatypes.Eq -> a = b.
+Hypothesis cmp_refl : forall a, cmp a a = Datatypes.Eq.
+Hypothesis cmp_antisym : forall a b, cmp a b = CompOpp (cmp b a).
+Hypothesis cmp_trans : forall a b c, cmp a b = Datatypes.Lt -> cmp b c = Datatypes.Lt -> cmp a c = Datatypes.Lt.
+
+Definition lt (a b : X) : Prop := cmp a b = Datatypes.Lt.
+Fixpoint ins (b : X) (l : list X) : list X :=
+  match l with
+  | [] => [b]
+  | x :: r => match cmp b x with Datatypes.Lt => b :: l | Datatypes.Eq => l | Datatypes.Gt => x :: ins b r end
+  end.
+Fixpoint rem (b : X) (l : list X) : list X :=
+  match l with
+  | [] => []
+  | x :: r => match cmp b x with Datatypes.Lt => l | Datatypes.Eq => r | Datatypes.Gt => x :: rem b r end
+  end.
+(* strictly increasing *)
+Inductive ssorted : list X -> Prop :=
+| ss_nil : ssorted []
+| ss_cons : forall a l, ssorted l -> Forall (lt a) l -> ssorted (a :: l).
+
+Lemma gt_lt : forall a b, cmp a b = Datatypes.Gt -> lt b a.
+Proof. intros a b H. unfold lt. rewrite cmp_antisym, H. reflexivity. Qed.
+Lemma lt_irrefl : forall a, ~ lt a a.
+Proof. intros a H. unfold lt in H. rewrite cmp_refl in H. discriminate. Qed.
+
+Lemma ins_forall : forall a b l, lt a b -> Forall (lt a) l -> Forall (lt a) (ins b l).
+Proof.
+  induction l as [|x r IH]; intros Hab Hl; simpl; [constructor; auto|].
+  inversion Hl; subst. destruct (cmp b x); auto.
+Qed.
+Lemma ins_sorted : forall b l, ssorted l -> ssorted (ins b l).
+Proof.
+  induction l as [|x r IH]; intros Hs; simpl.
+  - constructor; constructor.
+  - inversion Hs; subst. destruct (cmp b x) eqn:Hc.
+    + exact Hs.
+    + constructor; [exact Hs|]. constructor; [exact Hc|].
+      eapply Forall_impl; [|exact H2]. intros y Hy. eapply cmp_trans; eauto.
+    + constructor; [apply IH; auto|]. apply ins_forall; auto. now apply gt_lt.
+Qed.
+Lemma rem_forall : forall a b l, Forall (lt a) l -> Forall (lt a) (rem b l).
+Proof.
+  induction l as [|x r IH]; intros Hl; simpl; [constructor|].
+  inversion Hl; subst. destruct (cmp b x); auto.
+Qed.
+Lemma rem_sorted : forall b l, ssorted l -> ssorted (rem b l).
+Proof.
+  induction l as [|x r IH]; intros Hs; simpl; [constructor|].
+  inversion Hs; subst. destruct (cmp b x); auto.
+  constructor; [apply IH; auto | apply rem_forall; auto].
+Qed.
+Lemma ssorted_nodup : forall l, ssorted l -> NoDup l.
+Proof.
+  induction 1; constructor; auto.
+  intro Hin. rewrite Forall_forall in H0. apply (lt_irrefl a). now apply H0.
+Qed.
+End SortedSet.
+Arguments ssorted {X} cmp l.
+
+(* ---------- the derived Ord of ContextBinding is a strict total order ---------- *)
+Lemma ascii_compare_trans : forall a b c,
+  Ascii.compare a b = Datatypes.Lt -> Ascii.compare b c = Datatypes.Lt -> Ascii.compare a c = Datatypes.Lt.
+Proof.
+  intros a b c. unfold Ascii.compare. rewrite !N.compare_lt_iff. apply N.lt_trans.
+Qed.
+Lemma ascii_compare_refl : forall a, Ascii.compare a a = Datatypes.Eq.
+Proof. intro. unfold Ascii.compare. apply N.compare_refl. Qed.
+Lemma string_compare_refl : forall s, String.compare s s = Datatypes.Eq.
+Proof. induction s; simpl; [reflexivity|]. now rewrite ascii_compare_refl. Qed.
+Lemma string_compare_trans : forall a b c,
+  String.compare a b = Datatypes.Lt -> String.compare b c = Datatypes.Lt -> String.compare a c = Datatypes.Lt.
+Proof.
+  induction a as [|x a IH]; intros [|y b] [|z c] H1 H2; simpl in *; try discriminate; try reflexivity.
+  destruct (Ascii.compare x y) eqn:Hxy; try discriminate;
+  destruct (Ascii.compare y z) eqn:Hyz; try discriminate.
+  - apply Ascii.compare_eq_iff in Hxy, Hyz. subst. rewrite ascii_compare_refl. eapply IH; eauto.
+  - apply Ascii.compare_eq_iff in Hxy. subst. now rewrite Hyz.
+  - apply Ascii.compare_eq_iff in Hyz. subst. now rewrite Hxy.
+  - now rewrite (ascii_compare_trans _ _ _ Hxy Hyz).
+Qed.
+
+(* lexicographic combination *)
+Section Lex.
+Variables (A B : Type) (ca : A -> A -> comparison) (cb : B -> B -> comparison).
+Hypothesis a_eq : forall a b, ca a b = Datatypes.Eq -> a = b.
+Hypothesis a_refl : forall a, ca a a = Datatypes.Eq.
+Hypothesis a_anti : forall a b, ca a b = CompOpp (ca b a).
+Hypothesis a_trans : forall a b c, ca a b = Datatypes.Lt -> ca b c = Datatypes.Lt -> ca a c = Datatypes.Lt.
+Hypothesis b_eq : forall a b, cb a b = Datatypes.Eq -> a = b.
+Hypothesis b_refl : forall a, cb a a = Datatypes.Eq.
+Hypothesis b_anti : forall a b, cb a b = CompOpp (cb b a).
+Hypothesis b_trans : forall a b c, cb a b = Datatypes.Lt -> cb b c = Datatypes.Lt -> cb a c = Datatypes.Lt.
+Definition lex (x y : A * B) : comparison :=
+  match ca (fst x) (fst y) with Datatypes.Eq => cb (snd x) (snd y) | c => c end.
+Lemma lex_eq : forall x y, lex x y = Datatypes.Eq -> x = y.
+Proof.
+  intros [a b] [a' b']. unfold lex. simpl. destruct (ca a a') eqn:H; try discriminate.
+  intros H2. apply a_eq in H. apply b_eq in H2. now subst.
+Qed.
+Lemma lex_refl : forall x, lex x x = Datatypes.Eq.
+Proof. intros [a b]. unfold lex. simpl. now rewrite a_refl, b_refl. Qed.
+Lemma lex_anti : forall x y, lex x y = CompOpp (lex y x).
+Proof.
+  intros [a b] [a' b']. unfold lex. simpl. rewrite (a_anti a a'). destruct (ca a' a); simpl; auto.
+Qed.
+Lemma lex_trans : forall x y z, lex x y = Datatypes.Lt -> lex y z = Datatypes.Lt -> lex x z = Datatypes.Lt.
+Proof.
+  intros [a b] [a' b'] [a'' b'']. unfold lex. simpl.
+  destruct (ca a a') eqn:H1; try discriminate; destruct (ca a' a'') eqn:H2; try discriminate; intros H3 H4.
+  - apply a_eq in H1, H2. subst. rewrite a_refl. eauto.
+  - apply a_eq in H1. subst. now rewrite H2.
+  - apply a_eq in H2. subst. now rewrite H1.
+  - now rewrite (a_trans _ _ _ H1 H2).
+Qed.
+End Lex.
+
+Lemma n_compare_trans : forall a b c, N.compare a b = Datatypes.Lt -> N.compare b c = Datatypes.Lt -> N.compare a c = Datatypes.Lt.
+Proof. intros a b c. rewrite !N.compare_lt_iff. apply N.lt_trans. Qed.
+
+Lemma cident_compare_lex : forall a b, cident_compare a b = lex _ _ String.compare N.compare a b.
+Proof. reflexivity. Qed.
+Lemma cident_compare_eq : forall a b, cident_compare a b = Datatypes.Eq -> a = b.
+Proof. intros a b. rewrite cident_compare_lex. apply lex_eq; [apply String.compare_eq_iff | apply N.compare_eq]. Qed.
+Lemma cident_compare_refl : forall a, cident_compare a a = Datatypes.Eq.
+Proof. intros a. rewrite cident_compare_lex. apply lex_refl; [apply string_compare_refl | apply N.compare_refl]. Qed.
+Lemma cident_compare_anti : forall a b, cident_compare a b = CompOpp (cident_compare b a).
+Proof. intros a b. rewrite !cident_compare_lex. apply lex_anti; [apply String.compare_antisym | intros; apply N.compare_antisym]. Qed.
+Lemma cident_compare_trans : forall a b c,
+  cident_compare a b = Datatypes.Lt -> cident_compare b c = Datatypes.Lt -> cident_compare a c = Datatypes.Lt.
+Proof.
+  intros a b c. rewrite !cident_compare_lex.
+  apply lex_trans; [apply String.compare_eq_iff | apply string_compare_refl | apply string_compare_trans | apply n_compare_trans].
+Qed.
+
+Lemma cchi_compare_eq : forall a b, cchi_compare a b = Datatypes.Eq -> a = b.
+Proof. intros [|] [|]; simpl; congruence. Qed.
+Lemma cchi_compare_refl : forall a, cchi_compare a a = Datatypes.Eq.
+Proof. intros [|]; reflexivity. Qed.
+Lemma cchi_compare_anti : forall a b, cchi_compare a b = CompOpp (cchi_compare b a).
+Proof. intros [|] [|]; reflexivity. Qed.
+Lemma cchi_compare_trans : forall a b c,
+  cchi_compare a b = Datatypes.Lt -> cchi_compare b c = Datatypes.Lt -> cchi_compare a c = Datatypes.Lt.
+Proof. intros [|] [|] [|]; simpl; congruence. Qed.
+
+Lemma cty_compare_eq : forall a b, cty_compare a b = Datatypes.Eq -> a = b.
+Proof. intros [|x] [|y]; simpl; try congruence. intros H. apply cident_compare_eq in H. now subst. Qed.
+Lemma cty_compare_refl : forall a, cty_compare a a = Datatypes.Eq.
+Proof. intros [|x]; simpl; [reflexivity | apply cident_compare_refl]. Qed.
+Lemma cty_compare_anti : forall a b, cty_compare a b = CompOpp (cty_compare b a).
+Proof. intros [|x] [|y]; simpl; try reflexivity. apply cident_compare_anti. Qed.
+Lemma cty_compare_trans : forall a b c,
+  cty_compare a b = Datatypes.Lt -> cty_compare b c = Datatypes.Lt -> cty_compare a c = Datatypes.Lt.
+Proof. intros [|x] [|y] [|z]; simpl; try congruence. apply cident_compare_trans. Qed.
+
+Definition cb_tuple (b : cbinding) : cident * (cchi * cty) := (cbvar b, (cbchi b, cbty b)).
+Lemma cbinding_compare_lex : forall a b,
+  cbinding_compare a b = lex _ _ cident_compare (lex _ _ cchi_compare cty_compare) (cb_tuple a) (cb_tuple b).
+Proof. reflexivity. Qed.
+Lemma cb_tuple_inj : forall a b, cb_tuple a = cb_tuple b -> a = b.
+Proof. intros [v c t] [v' c' t'] H. inversion H. reflexivity. Qed.
+Lemma cbinding_compare_eq : forall a b, cbinding_compare a b = Datatypes.Eq -> a = b.
+Proof.
+  intros a b. rewrite cbinding_compare_lex. intros H. apply cb_tuple_inj. revert H.
+  apply lex_eq; [apply cident_compare_eq | apply lex_eq; [apply cchi_compare_eq | apply cty_compare_eq]].
+Qed.
+Lemma cbinding_compare_refl : forall a, cbinding_compare a a = Datatypes.Eq.
+Proof.
+  intros a. rewrite cbinding_compare_lex.
+  apply lex_refl; [apply cident_compare_refl | apply lex_refl; [apply cchi_compare_refl | apply cty_compare_refl]].
+Qed.
+Lemma cbinding_compare_anti : forall a b, cbinding_compare a b = CompOpp (cbinding_compare b a).
+Proof.
+  intros a b. rewrite !cbinding_compare_lex.
+  apply lex_anti; [apply cident_compare_anti | apply lex_anti; [apply cchi_compare_anti | apply cty_compare_anti]].
+Qed.
+Lemma cbinding_compare_trans : forall a b c,
+  cbinding_compare a b = Datatypes.Lt -> cbinding_compare b c = Datatypes.Lt -> cbinding_compare a c = Datatypes.Lt.
+Proof.
+  intros a b c. rewrite !cbinding_compare_lex.
+  apply lex_trans; [apply cident_compare_eq | apply cident_compare_refl | apply cident_compare_trans |].
+  apply lex_trans; [apply cchi_compare_eq | apply cchi_compare_refl | apply cchi_compare_trans | apply cty_compare_trans].
+Qed.
+
+(* bs_insert / bs_remove are the generic operations *)
+Lemma bs_insert_ins : forall b l, bs_insert b l = ins _ cbinding_compare b l.
+Proof. induction l; simpl; [reflexivity|]. now rewrite IHl. Qed.
+Lemma bs_remove_rem : forall b l, bs_remove b l = rem _ cbinding_compare b l.
+Proof. induction l; simpl; [reflexivity|]. now rewrite IHl. Qed.
+Notation bsorted := (ssorted cbinding_compare).
+Lemma bs_insert_sorted : forall b l, bsorted l -> bsorted (bs_insert b l).
+Proof.
+  intros. rewrite bs_insert_ins. apply ins_sorted; auto; [apply cbinding_compare_anti | apply cbinding_compare_trans].
+Qed.
+Lemma bs_remove_sorted : forall b l, bsorted l -> bsorted (bs_remove b l).
+Proof. intros. rewrite bs_remove_rem. apply rem_sorted; auto. Qed.
+Lemma bs_extend_sorted : forall bs l, bsorted l -> bsorted (bs_extend bs l).
+Proof. induction bs; simpl; intros; auto. apply IHbs. now apply bs_insert_sorted. Qed.
+Lemma bs_remove_all_sorted : forall bs l, bsorted l -> bsorted (bs_remove_all bs l).
+Proof. induction bs; simpl; intros; auto. apply IHbs. now apply bs_remove_sorted. Qed.
+
+Lemma tfv_sorted_all :
+  (forall t acc, bsorted acc -> bsorted (tfv_term t acc)) /\
+  (forall c acc, bsorted acc -> bsorted (tfv_clause c acc)) /\
+  (forall s acc, bsorted acc -> bsorted (tfv_stmt s acc)).
+Proof.
+  apply fs_mutind; intros; simpl; auto using bs_insert_sorted, bs_remove_sorted, bs_extend_sorted, bs_remove_all_sorted.
+  - (* XCase *) revert acc H0. induction H as [|cl r Hcl Hr IH]; intros acc Hacc; auto.
+  - (* IfC *) apply H0, H. destruct b; auto using bs_insert_sorted.
+Qed.
+Lemma typed_free_vars_sorted : forall s, bsorted (typed_free_vars s).
+Proof. intros. apply tfv_sorted_all. constructor. Qed.
+Lemma typed_free_vars_nodup : forall s, NoDup (typed_free_vars s).
+Proof.
+  intros. eapply ssorted_nodup; [apply cbinding_compare_refl | apply typed_free_vars_sorted].
+Qed.
+
+(* ====================================================================================== *)
+(* lift_closed                                                                              *)
+(* ====================================================================================== *)
+(* the parameters `lift` draws for the free variables fvs when max_id = m: same name, chirality and
+   type, ids m+1, m+2, ... in order *)
+Fixpoint fresh_params (fvs : list cbinding) (m : N) : cctx :=
+  match fvs with
+  | [] => []
+  | b :: r => mkcb (fst (cbvar b), N.succ m) (cbchi b) (cbty b) :: fresh_params r (N.succ m)
+  end.
+Lemma lift_params_spec : forall fvs st cx sub st1,
+  lift_params fvs st = ((cx, sub), st1) ->
+  cx = fresh_params fvs (s_max st) /\ sub = combine (cids fvs) (cvars cx) /\
+  st1 = mksst (s_max st + N.of_nat (List.length fvs)) (s_lifted st).
+Proof.
+  induction fvs as [|b r IH]; intros st cx sub st1 H; simpl in H.
+  - inversion H; subst. simpl. rewrite N.add_0_r. destruct st1; auto.
+  - destruct (lift_params r _) as [[cx' sub'] st2] eqn:Hr. inv H.
+    apply IH in Hr as [-> [-> ->]]. cbn [s_max s_lifted fresh_params cids cvars map combine List.length]. repeat split.
+    f_equal. rewrite Nat2N.inj_succ. lia.
+Qed.
+Lemma fresh_params_ids : forall fvs m x, In x (cids (fresh_params fvs m)) -> (m < x <= m + N.of_nat (List.length fvs))%N.
+Proof.
+  induction fvs as [|b r IH]; intros m x Hin; simpl in Hin; [contradiction|].
+  cbn [List.length]. rewrite Nat2N.inj_succ. destruct Hin as [<-|Hin]; [unfold cid_id; simpl; lia|].
+  apply IH in Hin. lia.
+Qed.
+Lemma fresh_params_nodup : forall fvs m, NoDup (cids (fresh_params fvs m)).
+Proof.
+  induction fvs as [|b r IH]; intros m; simpl; constructor; [|apply IH].
+  intros Hin. apply fresh_params_ids in Hin. unfold cid_id in Hin. simpl in Hin. lia.
+Qed.
+Lemma fresh_params_sig : forall fvs m,
+  Forall2 (fun p f => fst (cbvar p) = fst (cbvar f) /\ cbchi p = cbchi f /\ cbty p = cbty f) (fresh_params fvs m) fvs.
+Proof. induction fvs; intros; simpl; constructor; auto. Qed.
+(* the translated signature only depends on chirality and type *)
+Lemma shrink_binding_sig : forall codata p f, cbchi p = cbchi f -> cbty p = cbty f ->
+  bchi (shrink_binding codata p) = bchi (shrink_binding codata f) /\
+  bty (shrink_binding codata p) = bty (shrink_binding codata f).
+Proof.
+  intros codata [v c t] [v' c' t'] H1 H2. simpl in *. subst. unfold shrink_binding. simpl.
+  destruct (cty_eqb t' CI64); destruct (cchi_eqb c' CCns); simpl; auto;
+  destruct (_ || _); auto.
+Qed.
+
+(* `lift s`: the free variables fvs of s (in BTreeSet order, duplicate-free) are passed by the call,
+   in that order; the new definition, pushed to the front of the lifted definitions, has one fresh
+   parameter per free variable, in the same order with the same name, chirality and type (hence the
+   same AxCut signature as the call's arguments), pairwise distinct; its body is the shrunk statement
+   with each free variable renamed to its parameter. *)
+Theorem lift_closed : forall rec E s st r st',
+  lift rec E s st = SOk (r, st') ->
+  let fvs := typed_free_vars s in
+  let params := fresh_params fvs (s_max st) in
+  let label := (("lift_" ++ e_label E ++ "_")%string, N.succ (s_max st + N.of_nat (List.length fvs))) in
+  bsorted fvs /\ NoDup fvs /\ NoDup (cids params) /\
+  Forall2 (fun p f => fst (cbvar p) = fst (cbvar f) /\ cbchi p = cbchi f /\ cbty p = cbty f) params fvs /\
+  r = Call label (shrink_context (e_codata E) fvs) /\
+  exists body st3,
+    rec (subst_stmt (combine (cids fvs) (cvars params)) s)
+        (mksst (N.succ (s_max st + N.of_nat (List.length fvs))) (s_lifted st)) = SOk (body, st3) /\
+    st' = mksst (s_max st3) (mkd label (shrink_context (e_codata E) params) body :: s_lifted st3).
+Proof.
+  intros rec E s st r st' H fvs params label. unfold lift in H. fold fvs in H.
+  destruct (lift_params fvs st) as [[cx sub] st1] eqn:Hp.
+  apply lift_params_spec in Hp as [-> [-> ->]]. fold params in H.
+  unfold fresh_identifier in H. cbn [s_max s_lifted] in H.
+  split; [apply typed_free_vars_sorted|]. split; [apply typed_free_vars_nodup|].
+  split; [apply fresh_params_nodup|]. split; [apply fresh_params_sig|].
+  destruct (rec _ _) as [[body st3]|] eqn:Hb; [|discriminate]. cbn [sbind] in H. inv H.
+  split; [reflexivity|]. exists body, st3. split; reflexivity.
+Qed.
